@@ -170,6 +170,17 @@ TSSkip ==
     /\ ~HasStatic(Ev.p, Ev.m)
     /\ UNCHANGED vars
 
+(* ---- concurrency (C16) ---- *)
+(* the per-thread observations of harness/mt.cpp are ordinary resolve / call events (a call leaves the  *)
+(* specification's state unchanged, so any interleaving of the threads is the same behaviour); after the   *)
+(* concurrent phase the policies' statics must be bit-for-bit what they were before it (the call path is    *)
+(* read-only).  ThreadSanitizer reports are turned by the driver into "race" events, for which there is no   *)
+(* action: a race rejects the trace.                                                                   *)
+TStatics ==
+    /\ IsEvent("statics") /\ KeepLay
+    /\ Ev.same
+    /\ UNCHANGED vars
+
 (* ---- encoded dispatch data (C13) ---- *)
 (* what the real generator emitted for the last update: array sizes as declared (H headroom, S slots, *)
 (* E encoded v-table words, D decoded v-table cells, T dispatch-table cells) and the number of          *)
@@ -326,7 +337,7 @@ TNext ==
 
 TNextStep ==
     \/ TReset \/ TClass \/ TUnclass \/ TMethod \/ TUnmethod \/ TDef \/ TUndef \/ THandler
-    \/ TUpdate \/ TTable \/ TCTable \/ TResolve \/ TCall \/ TDied \/ TNext \/ TEnd \/ TLayout \/ TReads \/ TSkip \/ TEncoded \/ TDecoded \/ TOffsets \/ TSLoad \/ TSSkip \/ TNode \/ TVptr \/ TVDerive \/ TVDrop \/ TVGet \/ TVCall \/ TVSkip
+    \/ TUpdate \/ TTable \/ TCTable \/ TResolve \/ TCall \/ TDied \/ TNext \/ TEnd \/ TLayout \/ TReads \/ TSkip \/ TStatics \/ TEncoded \/ TDecoded \/ TOffsets \/ TSLoad \/ TSSkip \/ TNode \/ TVptr \/ TVDerive \/ TVDrop \/ TVGet \/ TVCall \/ TVSkip
 
 TSpec == TInit /\ [][TNextStep]_tvars
 
